@@ -53,6 +53,13 @@ try:
     r = sh(f'unshare -rn sh -c "ip link set lo up && cd {wt} && PYTHONPATH={wt}/src timeout 1200 /venv/bin/python -m pytest -q '
            f'-p no:cacheprovider --timeout=900 2>&1 | tail -1"')
     out['suite_with_patch'] = r.stdout.strip()
+    if not out['suite_with_patch'].startswith('782 passed'):
+        # tests/e2e/test_e2e_transfer.py::test_transfer_requeueWhenUserComesOnline is timing dependent under load
+        # (fails in ~4% of runs on a busy machine, also at the pinned commit): run once more
+        r2 = sh(f'unshare -rn sh -c "ip link set lo up && cd {wt} && PYTHONPATH={wt}/src timeout 1200 /venv/bin/python -m pytest -q '
+                f'-rf -p no:cacheprovider --timeout=900 2>&1 | grep -E \'^FAILED|passed|failed\' | tail -3"')
+        out['suite_with_patch_first_run'] = out['suite_with_patch']
+        out['suite_with_patch'] = r2.stdout.strip().replace('\n', ' ; ')
     out['checks'] = []
     for c in checks:
         shutil.rmtree(ev, ignore_errors=True)
